@@ -54,7 +54,9 @@ var IntPool = []int64{math.MinInt64, math.MinInt64 + 1, -1000, -2, -1, 0, 1, 2, 
 var FloatPool = []float64{-math.MaxFloat64, -1e10, -2, -1.5, -1, -0.5, -2.2250738585072014e-308, -math.SmallestNonzeroFloat64, math.Copysign(0, -1), 0,
 	math.SmallestNonzeroFloat64, 2.2250738585072014e-308, 0.1, 0.5, 1, 1.5, 2, 3.25, 1e10, math.MaxFloat64}
 
-var StringPool = []string{"a", "A", "ab", "aB", "Ab", "AB", "abc", "abd", "b", "B", "ba", "z", "Z", "é", "É", "éa", "日本", "日本語", "a\x00", "a b", "0", "10", "9", "~", "apple", "Apple", "APPLE", "apple pie"}
+var StringPool = []string{"a", "A", "ab", "aB", "Ab", "AB", "abc", "abd", "b", "B", "ba", "z", "Z", "é", "É", "éa", "日本", "日本語", "a\x00", "a b", "0", "10", "9", "~", "apple", "Apple", "APPLE", "apple pie",
+	// the largest code point, alone, repeated and followed by more: keys at the upper edge of every prefix range
+	"ab\U0010FFFF", "ab\U0010FFFFz", "ab\U0010FFFF\U0010FFFF", "\U0010FFFF", "z\U0010FFFFa", "ab\uFFFD"}
 
 var TagPool = []string{"red", "Red", "RED", "blue", "green", "a", "ab", "x", "tag1", "tag2", "Tag1"}
 
@@ -280,6 +282,18 @@ func (g *G) Doc() model.Doc {
 				continue
 			}
 			d[k] = g.extraValue(0)
+		}
+		// a stored value that happens to be the literal removal marker of the update API: an insert
+		// stores it like any other string, and only an update that names the field may remove it
+		if g.R.IntN(12) == 0 {
+			k := []string{"x", "note", "marker"}[g.R.IntN(3)]
+			if _, clash := g.Schema[k]; !clash {
+				if g.R.IntN(3) == 0 {
+					d[k] = map[string]any{"inner": "_delete", "k0": g.R.IntN(9)}
+				} else {
+					d[k] = "_delete"
+				}
+			}
 		}
 	}
 	if g.R.IntN(25) == 0 {
